@@ -123,7 +123,7 @@ def run(ctx):
     return K.finish(
         ctx, "proof",
         rule=("schedules = 8 corpus cases (FIFO chain with cancelled waiter and stale/foreign unlocks, TTL expiry, 4x cancel-vs-grant race, "
-              "cancelled head, gateway TTL floor and WithoutCancel) followed by random sequences of lock K long|short [hold] / go S / cancel S / "
+              "cancelled head, gateway TTL floor (measured in whole seconds, lag-tolerant) and WithoutCancel) followed by random sequences of lock K long|short [hold] / go S / cancel S / "
               "unlock S / unlockraw / expire S (4..25 ops quick, ..53 thorough) on keys a,b; non-trivial = at least 3 ops; distinct = distinct op "
               "texts; each op's reply (event, queue, granted set, believing holders read through a verif-only accessor) is compared between "
               "the real lock and the Lean model"),
